@@ -206,3 +206,14 @@ Definition srun (h : list sevent) : estate := erun (map unstamp h).
 (** two deliveries that differ only in their receive times *)
 Definition same_modulo_received (h h' : list sevent) : Prop :=
   Forall2 (fun a b => unstamp a = unstamp b) h h'.
+
+(* ---- persist / restore ---------------------------------------------------------------------------- *)
+
+(** a delivery in which the state of instrument [i] may be serialised and restored between two
+    events: restoring gives back the same state, so it is a no-op of the model *)
+Inductive pevent := PEv (e : sevent) | PRestoreI (i : N).
+Definition pestep (s : estate) (p : pevent) : estate :=
+  match p with PEv e => estep s (unstamp e) | PRestoreI _ => s end.
+Definition perun (h : list pevent) : estate := fold_left pestep h (fun _ => is0).
+Definition drop_restores (h : list pevent) : list sevent :=
+  flat_map (fun p => match p with PEv e => [e] | PRestoreI _ => [] end)%list h.
